@@ -23,6 +23,60 @@ def stats(specs, groups, tf, fasta_like=False, cuts=None, ends=None, fr=0):
     n_h = len(h.scaffolds) if h is not None else 0
     ok = AND(ok, n_h == sum(1 for (k, sc, i, f) in out_frags(outs) if k == "Haplotig" and i == 0))
     return FIN(ok)
+
+
+class _YOut:
+    def __init__(self, store, name):
+        self.store, self.name = store, name
+
+    stem = property(lambda self: self.name.rsplit(".", 1)[0])
+
+    def with_name(self, nm):
+        return _YOut(self.store, nm)
+
+    def exists(self):
+        return self.name in self.store
+
+    def open(self, mode="r", buffering=-1, encoding=None, errors=None, newline=None):
+        f = io.StringIO()
+        self.store[self.name] = f
+        f.close = lambda: None
+        return f
+
+    def __str__(self):
+        return self.name
+
+
+def yaml_report(ps0: bool, ps1: bool, ps2: bool, ps3: bool) -> bool:
+    """
+    post: _
+    """
+    # the REPORT (info yaml written by pretext-to-asm): in a two-haplotype run with two contaminant
+    # scaffolds fused into one, the top-level manual_breaks / manual_joins are the totals over ALL
+    # output assemblies (here one join is not attributable to a haplotype) and the haplotig removal
+    # count is the number of haplotig scaffolds written
+    START()
+    import yaml
+    from tola.assembly.scripts import pretext_to_asm as P2A
+    P2A.click.echo = lambda *a, **k: None
+    st = [1 if b else -1 for b in (ps0, ps1, ps2, ps3)]
+    inp, lay = mk_input([("hap1_s_1", "FGF", (40, 7, 30)), ("hap2_s_2", "FGF", (35, 9, 25)), ("c_3", "F", (20,)), ("c_4", "F", (22,)), ("h_5", "F", (18,))])
+    prtxt = mk_pretext([("Scaffold_1", [("hap1_s_1", 1, 77, st[0], ("Painted", "Hap1"))]),
+                        ("Scaffold_2", [("hap2_s_2", 1, 69, st[1], ("Painted", "Hap2"))]),
+                        ("Scaffold_3", [("c_3", 1, 20, st[2], ("Contaminant",)), ("c_4", 1, 22, st[3], ("Contaminant",))]),
+                        ("Scaffold_4", [("h_5", 1, 18, 1, ("Haplotig", "Hap1"))])], 3)
+    ba, outs = run_pipeline(inp, prtxt)
+    stats = ba.assembly_stats
+    ok = stats_ok(inp, outs, stats)
+    store = {}
+    P2A.write_info_yaml(_YOut(store, "spec.1.tpf"), stats, outs, True)
+    if list(store) != ["spec.1.info.yaml"]:
+        return FIN(False)
+    info = yaml.safe_load(store["spec.1.info.yaml"].getvalue())
+    n_h = len(outs["Haplotig"].scaffolds) if "Haplotig" in outs else 0
+    ok = AND(ok, len(info["assemblies"]) == 2, info.get("manual_breaks") == stats.breaks, info.get("manual_joins") == stats.joins,
+             stats.joins == 1, stats.breaks == 0, info["manual_haplotig_removals"] == n_h, n_h == 1)
+    return FIN(ok)
 '''
 
 ENC = ("Fragment.junction_tuple", "Scaffold.fragment_junction_set", "Assembly.fragment_junction_set", "Assembly.fragment_junctions_by_asm_prefix",
@@ -64,6 +118,9 @@ def conditions(tier):
     q.append(("haplotig_scaffolds_counted", _m(n, [("S1", "FGF"), ("S2", "F"), ("S3", "FF")], ((0, 0, 0), [(0, 0, 0), (1, 1, 0), (2, 2, 0)]), False, (1, -1, 1),
                                                tags=[P, ("Haplotig",), ("Haplotig",)]), n, 600,
               "three whole scaffolds, two tagged Haplotig"))
+    q.append(("info_yaml_reports_totals_over_all_assemblies", "", "yaml_report", 600,
+              "the info yaml written by the real write_info_yaml for a two-haplotype run with two contaminant scaffolds fused into one and a haplotig (concrete sizes, the four piece strands symbolic): "
+              "top-level breaks/joins == totals over all output assemblies == independent recount; haplotig removals == haplotig scaffolds"))
     src_q = HEAD + "".join(x[1] for x in q)
     for (nm, _, fn, to, bound) in q:
         out.append(Cond(nm, src_q, fn, to, bound, replay="replay_model", encodes=ENC))
